@@ -58,10 +58,13 @@ def recount(records, exons, introns, delta, group_of):
                 rivals = [f2 for f2 in ex_by_chr[c] if f2 != f and abs(e[0] - f2[0]) <= delta and abs(e[1] - f2[1]) <= delta]
                 disjoint = e[1] < f[0] or f[1] < e[0]
                 cell[1] += 1
-                if not rivals and not disjoint:
+                # several annotated features within delta of one read feature: one that is no further from the read feature than
+                # any rival at BOTH ends is certainly contained; a strictly worse one may be reported as skipped
+                best = all(abs(e[0] - f[0]) <= abs(e[0] - f2[0]) and abs(e[1] - f[1]) <= abs(e[1] - f2[1]) for f2 in rivals)
+                if best and not disjoint:
                     cell[0] += 1
                 else:
-                    cell[3] += 1      # the code may call the worse of two near-identical features 'excluded'
+                    cell[3] += 1
                 continue
             if len(rex) < 2:
                 continue
@@ -80,7 +83,8 @@ def recount(records, exons, introns, delta, group_of):
                 i = matches[0]
                 rivals = [f2 for f2 in in_by_chr[c] if f2 != f and abs(i[0] - f2[0]) <= delta and abs(i[1] - f2[1]) <= delta]
                 cell[1] += 1
-                if not rivals:
+                best = all(abs(i[0] - f[0]) <= abs(i[0] - f2[0]) and abs(i[1] - f[1]) <= abs(i[1] - f2[1]) for f2 in rivals)
+                if best:
                     cell[0] += 1
                 else:
                     cell[3] += 1
@@ -95,7 +99,7 @@ def recount(records, exons, introns, delta, group_of):
 
 def run(chk, scratch):
     thorough = chk.tier == "thorough"
-    chk.rule = ("annotations with overlapping exons, exons shared by genes on both strands, contained features, alternative first/last exons; read sets "
+    chk.rule = ("annotations with overlapping exons, twin features 2-6 bp apart (reads exactly between them), exons shared by genes on both strands, contained features, alternative first/last exons; read sets "
                 "with full/truncated/jittered/exon-skipping/intron-retaining reads and reads of unannotated isoforms; delta presets; --read_group tag. "
                 "Every row of the exon/intron count tables (aggregated by feature and group) is compared with the recount interval; features absent "
                 "from the table must have an interval containing 0. non-trivial = features with include > 0 and exclude > 0, or carrying a C/S/M flag")
@@ -109,6 +113,12 @@ def run(chk, scratch):
         seed, strat, dt = job
         d = os.path.join(scratch, "w%d_%s_%s" % (seed, strat, dt))
         w = world2.rich_world(seed, n_chroms=3, genes_per_chrom=4, reads_per_t=6, hidden_cov=5, multimappers=False, unmapped=0)
+        # twin features: annotated introns / exons that differ by 2..6 bp at one boundary, with reads exactly between the two
+        n0 = len(w.reads)
+        world2.add_twin_loci(w, per_chrom=3)
+        for i, rd in enumerate(w.reads[n0:]):
+            rd.tags = [("RG", "g%d" % (i % 3))]
+            rd.file_idx = i % 2
         pipeline.write_world(w, d)
         out = os.path.join(d, "out")
         r = pipeline.run(d, out, data_type=dt, threads=2, extra=["--count_exons", "--read_group", "tag:RG", "--matching_strategy", strat,
@@ -193,7 +203,7 @@ def run(chk, scratch):
     chk.extra.update({"rows_checked": rows_checked, "rows_with_degenerate_interval": exact_rows,
                       "share_exact": round(exact_rows / rows_checked, 4) if rows_checked else 0})
     chk.assumptions = ["processed reads = distinct (read id, chr, exons) records of read_assignments.tsv",
-                       "interval oracle: include exact unless two annotated features are within delta of one read feature; exon exclude between "
+                       "interval oracle: include exact unless two annotated features are within delta of one read feature and the feature is further from it than a rival at one end; exon exclude between "
                        "'strictly inside by more than delta' and 'inside [first exon end, last exon start]'; intron exclude between overlap >= 40 and overlap >= 1"]
     chk.inconclusive_if(rows_checked == 0, "no row checked")
     chk.inconclusive_if(rows_checked and exact_rows / rows_checked < 0.5, "fewer than half of the rows have an exact expectation")
